@@ -154,6 +154,22 @@ CLAIMS["C17"] = dict(
          "are not checked.",
 )
 
+CLAIMS["C09"] = dict(
+    technique="Lean 4 theorems on the generator-context state machine over every history (driver context invariant under next/close/drop, overlays exact) + step-by-step history correspondence + context-identity oracle",
+    text="Machine-checked proof over the generator-context model (proceed enter/suspend/resume/exit, overlay enter/exit), "
+         "for every history of {enter/leave overlay, next, close, drop, driver call} over any number of generators in any "
+         "order, that advancing, exhausting, closing or dropping a generator leaves the driver's context exactly as it "
+         "was, that the driver never runs inside a generator, that the installed overlays are exactly those entered and "
+         "not yet left (an ended overlay is never re-installed), and that a generator body runs under the collection "
+         "derived at its entry. Model and implementation are compared after every step of generated histories through "
+         "what fires for driver calls and generator segments (g > a, gen0 > g > a, gen1 > g > a per overlay); "
+         "HandlerCollection.current is compared before/after every generator operation.",
+    design_ref="DESIGN.md section 5, C09",
+    note="The context value is abstracted to (installed overlays, generator activations the collection was derived "
+         "through). Generators suspended inside `yield from` (not rewritten by ptera) and gen.throw() are outside the "
+         "histories explored. Holds only after the fix commits a5e9710 and 9f3c432.",
+)
+
 PENDING_REASON = ("not claimed yet in this build: the Lean model and correspondence check for this property are "
                   "still under construction (see DESIGN.md section 11); the technique applies and the property "
                   "will move to `checks` when its check exists")
